@@ -52,6 +52,11 @@ def state_uses(prog, region):
             elif is_glob(root) and not isinstance(muts[root], ast.Constant):
                 out.append((f, e.node, root, 'mutates (%s)' % e.kind))
         for c in walk_no_nested(f.node):
+            if isinstance(c, (ast.Assign, ast.Return)) and isinstance(
+                    c.value, ast.Name) and is_glob(c.value.id) and \
+                    not isinstance(muts[c.value.id], ast.Constant):
+                out.append((f, c, c.value.id, 'keeps a reference to'
+                            if isinstance(c, ast.Assign) else 'returns'))
             if isinstance(c, ast.Call):
                 for a in list(c.args) + [k.value for k in c.keywords]:
                     if isinstance(a, ast.Name) and is_glob(a.id) and \
